@@ -101,6 +101,8 @@ func init() {
 				Quick: tierCfg{Params: map[string]int{"intervals": 2}}, Thorough: tierCfg{Params: map[string]int{"intervals": 3}}},
 			{Pkg: "mysql/gtids", Entry: "H_C13_diff", Witnesses: []string{"C13.diff.equal", "C13.diff.source-ahead", "C13.diff.split", "C13.diff.replica-ahead"},
 				Quick: tierCfg{Params: map[string]int{"uuids": 2, "tags": 1, "intervals": 1}}, Thorough: tierCfg{Params: map[string]int{"uuids": 2, "tags": 1, "intervals": 2}}},
+			{Pkg: "mysql/gtids", Entry: "H_C13_diff_tags", Witnesses: []string{"C13.diff.equal", "C13.diff.source-ahead", "C13.diff.split", "C13.diff.replica-ahead"},
+				Quick: tierCfg{Params: map[string]int{"uuids": 1, "tags": 2, "intervals": 1}}, Thorough: tierCfg{Params: map[string]int{"uuids": 2, "tags": 2, "intervals": 1}}},
 			{Pkg: "app", Entry: "H_C13_most_recent", Witnesses: []string{"C13.recent.split", "C13.recent.max"},
 				Quick: tierCfg{Params: map[string]int{"max_n": 3, "gtid_bits": 3}}, Thorough: tierCfg{Params: map[string]int{"max_n": 5, "gtid_bits": 4}}},
 		},
@@ -147,6 +149,8 @@ func init() {
 		ID: "C18",
 		Obligations: []obligation{
 			{Pkg: "app", Entry: "H_C18_usage", Witnesses: []string{"C18.usage"}, Solver: "cvc5"},
+			{Pkg: "app", Entry: "H_C18_usage_exact", Witnesses: []string{"C18.usage.exact"}, Solver: "cvc5",
+				Quick: tierCfg{Params: map[string]int{"bits": 10}}, Thorough: tierCfg{Params: map[string]int{"bits": 14}, SolverMs: 600000}},
 			{Pkg: "app", Entry: "H_C18_decision", Witnesses: []string{"C18.ro", "C18.rw", "C18.untouched"},
 				Quick: tierCfg{Params: map[string]int{"max_replicas": 2, "faults": 0}}},
 			{Pkg: "app", Entry: "H_C18_decision_faults", Witnesses: []string{"C18.faulted"},
@@ -155,6 +159,7 @@ func init() {
 		Encoded: []string{"(*app.App).repairReadOnlyOnMaster", "(app/node_state.DiskState).Usage", "(*mysql.Node).SetWritable", "(*mysql.Node).setReadonlyWithTimeout", "(*app.appDCS).SetLowSpace"},
 		Assumptions: append([]string{
 			"thresholds are arbitrary non-NaN floats with not_critical <= critical (Config.Validate); per-host usage is an arbitrary non-NaN float — the contract of DiskState.Usage, itself decided over all uint64 pairs by H_C18_usage (assume/guarantee)",
+			"H_C18_usage_exact: Usage() against exact integer arithmetic at the half-percent thresholds k/2 for k in {1,100,181,191,199,200}, used <= total < 2^10 (thorough 2^14); larger disk sizes and other thresholds are outside this obligation (the FP division is the solver's limit: 2^20 returned unknown after 5 min in z3 and cvc5)",
 			"reading decision: a missing master disk report makes the master-usage conjunct vacuous (the code deliberately wishes the master writable before reports arrive)",
 			"the manager's view of the master satisfies super_read_only ⇒ read_only",
 		}, fleetAssume...),
